@@ -346,6 +346,63 @@ func shadowHistory(rng *rand.Rand) (*jBundle, []func() string) {
 	return b, edits
 }
 
+// listHistory: hand-written services with list methods (j5.list.v1 page / query objects in the request, page in the
+// response) and appends to exactly those requests and responses: fields of library types must keep their place among
+// the others.
+func listHistory(rng *rand.Rand) (*jBundle, []func() string) {
+	g := &j5Gen{rng: rng}
+	b, _ := g.apiBundle(false, true, 0)
+	var edits []func() string
+	n := 0
+	for _, f := range b.Files {
+		for _, e := range f.Elems {
+			if e.Service == nil {
+				continue
+			}
+			for _, m := range e.Service.Methods {
+				m := m
+				isList := false
+				for _, rf := range m.Req {
+					if rf.T != nil && strings.HasPrefix(rf.T.RefFull, "j5.list.v1.") {
+						isList = true
+					}
+				}
+				if !isList {
+					continue
+				}
+				if rng.Intn(2) == 0 {
+					// the library types spelled with their full package name instead of the import alias
+					for _, rf := range append(append([]*jF{}, m.Req...), m.Res...) {
+						if rf.T != nil && strings.HasPrefix(rf.T.RefFull, "j5.list.v1.") {
+							rf.T.Ref = rf.T.RefFull
+						}
+					}
+				}
+				for rep := 0; rep < 2; rep++ {
+					n++
+					name := fmt.Sprintf("listAppended%s", c13Suffix[n%len(c13Suffix)])
+					edits = append(edits, func() string {
+						m.Req = append(m.Req, fld(name, g.scalarType()))
+						return "list-request: append field to request of list method " + m.Name
+					})
+					n++
+					name2 := fmt.Sprintf("listAppended%s", c13Suffix[n%len(c13Suffix)])
+					edits = append(edits, func() string {
+						m.Res = append(m.Res, fld(name2, g.scalarType()))
+						return "list-response: append field to response of list method " + m.Name
+					})
+				}
+			}
+		}
+	}
+	for i := 0; i < 2; i++ {
+		i := i
+		edits = append(edits, func() string { return appendEdit(rng, b, i) })
+	}
+	rng.Shuffle(len(edits), func(i, j int) { edits[i], edits[j] = edits[j], edits[i] })
+	return b, edits
+}
+
 func runC13(r *rt.Runner) {
 	for b := 0; b < r.Scale(500, 15000); b++ {
 		r.Do(fmt.Sprintf("history/%d", b), func(c *rt.C) {
@@ -358,6 +415,8 @@ func runC13(r *rt.Runner) {
 				bundle = dottedBundle(rng)
 			} else if b%8 == 6 {
 				bundle, scripted = shadowHistory(rng)
+			} else if b%8 == 5 {
+				bundle, scripted = listHistory(rng)
 			} else {
 				bundle = (&j5Gen{rng: rng}).randomBundle()
 			}
